@@ -24,7 +24,9 @@ CallableKinds == {"function", "method", "static", "classmethod", "ctor"}
 \* "newmethod": def __new__(cls, ...) - Python passes the class implicitly although the method carries no decorator
 \* "docfunction": a function whose NumPy-style docstring gives every parameter a type (and says nothing about defaults); it is analysed with
 \* the docstring as preferred type source - which decides types only: defaults and optionality are those of the Python parameter list
-CkCode(c) == CASE c = "docfunction" -> 8 [] c = "function" -> 0 [] c = "method" -> 1 [] c = "static" -> 2 [] c = "classmethod" -> 3 [] c = "ctor" -> 4 [] c = "starmethod" -> 5 [] c = "starctor" -> 6 [] c = "newmethod" -> 7
+\* "refunction": the function is defined twice; the later definition (the scenario's parameter list) is the function, the earlier one
+\* (which shares the first parameter name) is gone
+CkCode(c) == CASE c = "refunction" -> 9 [] c = "docfunction" -> 8 [] c = "function" -> 0 [] c = "method" -> 1 [] c = "static" -> 2 [] c = "classmethod" -> 3 [] c = "ctor" -> 4 [] c = "starmethod" -> 5 [] c = "starctor" -> 6 [] c = "newmethod" -> 7
 HasReceiver(c) == c \in {"method", "classmethod", "ctor", "newmethod"}
 
 (* Literal defaults: Python source text, literal type, canonical value (Python value semantics, B.7). *)
@@ -85,6 +87,8 @@ Universe ==
   UNION { { Scenario(n, sd, "newmethod", ann, FALSE) : sd \in Shapes(n), ann \in BOOLEAN } : n \in 0..2 }
   \cup
   UNION { { Scenario(n, sd, "docfunction", ann, FALSE) : sd \in Shapes(n), ann \in BOOLEAN } : n \in 1..2 }
+  \cup
+  UNION { { Scenario(n, sd, "refunction", ann, FALSE) : sd \in Shapes(n), ann \in BOOLEAN } : n \in 1..2 }
   \cup
   UNION { { Scenario(n, sd, ck, TRUE, TRUE) :
               sd \in { x \in Shapes(n) : x[1][1] \in {"posonly", "pos"} }, ck \in {"function", "static"} } : n \in 1..MaxP }
